@@ -622,3 +622,319 @@ def machineStep (s : Option Sys) (line : String) : Option Sys × String :=
       | some op => ((sysStep st op).1, (sysStep st op).2)
 
 end SwimVerif.DL
+
+/-! ## Observable-level monitor: decides the property on a trace of (op, observed output) pairs alone -/
+
+namespace SwimVerif.DL
+
+structure MCons where
+  sync : Bool
+  late : Bool               -- attached after the remote had sent `linked` or `synced`
+  phase : Phase := .fresh
+  rAlive : Bool := true
+  deriving Repr
+
+structure Mon where
+  started : Bool := false
+  mapFl : Bool := false
+  abort : Bool := true
+  cons : List MCons := []
+  linkedSent : Bool := false      -- the remote has sent `linked`
+  leftInit : Bool := false        -- the remote has sent `linked` or `synced` (the read task has left `Init`)
+  earlyFrame : Bool := false      -- the remote sent an event / synced before its first `linked`
+  lastEv : Option Body := none    -- body of the last event the remote sent
+  closing : Bool := false         -- an op that closes the link has been seen (or `done`)
+  issued : List Cmd := []         -- commands written by consumers (accepted by their channel)
+  got : List Cmd := []            -- command frames read from the socket
+  frames : Nat := 0               -- frames read from the socket
+  syncAsked : Nat := 0            -- attachments with SYNC
+  syncGot : Nat := 0
+  deriving Repr
+
+def parseBody (mapFl : Bool) (t : String) : Option Body :=
+  if mapFl then
+    match t.splitOn "." with
+    | ["-"] => some (.raw [])
+    | ["upd", k, h] => do some (.upd (← k.toNat?) (← bytesOfHex h))
+    | ["rem", k] => k.toNat?.map .rem
+    | ["clr"] => some .clr
+    | ["take", n] => n.toNat?.map .take
+    | ["drop", n] => n.toNat?.map .drop
+    | _ => none
+  else (bytesOfHex t).map .raw
+
+def parseNote (mapFl : Bool) (t : String) : Option Note :=
+  if t == "linked" then some .linked
+  else if t == "synced" then some .synced
+  else if t == "unlinked" then some .unlinked
+  else if t == "eof" then some .eof
+  else if t.startsWith "ev:" then (parseBody mapFl (t.drop 3).toString).map .event
+  else none
+
+def parseNotes (mapFl : Bool) (t : String) : Option (List Note) :=
+  (t.splitOn ",").mapM (parseNote mapFl)
+
+/-- Observed output of one op, parsed. -/
+structure ObsIn where
+  notes : List (Nat × List Note) := []
+  read : Option Nat := none
+  frames : List String := []     -- `link`, `sync`, `cmd:<hex>`
+  sockEof : Bool := false
+  closed : Bool := false
+  cmdClosed : Bool := false
+  done : Bool := false
+  deriving Repr
+
+def parseTok (mapFl : Bool) (o : ObsIn) (t : String) : Option ObsIn :=
+  if t == "-" then some o
+  else if t == "done" then some { o with done := true }
+  else if t == "eof" then some { o with sockEof := true }
+  else if t == "closed" then some { o with closed := true }
+  else if t == "cmd-closed" then some { o with cmdClosed := true }
+  else if t.startsWith "read=" then (t.drop 5).toString.toNat?.map fun n => { o with read := some n }
+  else if t.startsWith "f:" then some { o with frames := o.frames ++ [(t.drop 2).toString] }
+  else if t.startsWith "c" then
+    match (t.drop 1).toString.splitOn ":" with
+    | c :: rest => do
+        let ns ← parseNotes mapFl (":".intercalate rest)
+        some { o with notes := o.notes ++ [(← c.toNat?, ns)] }
+    | _ => none
+  else none
+
+def parseObs (mapFl : Bool) (out : String) : Option ObsIn :=
+  (words out).foldlM (parseTok mapFl) {}
+
+def notesAll (o : ObsIn) (c : Nat) : List Note := ((o.notes.find? fun p => p.1 == c).map (·.2)).getD []
+
+/-- Drop a trailing `unlinked, eof` (the link may close in any op). -/
+def stripClose (ns : List Note) : List Note :=
+  if ns.drop (ns.length - 2) == [.unlinked, .eof] then ns.take (ns.length - 2) else ns
+
+/-- What consumer `c` received in this op, apart from a closing `unlinked, eof`. -/
+def notesFor (o : ObsIn) (c : Nat) : List Note := stripClose (notesAll o c)
+
+/-- Map state produced by a list of commands (value flavour: the last body under key 0). -/
+def foldCmds (cs : List Cmd) : List (Nat × Bytes) :=
+  cs.foldl (fun m c => match c with
+    | .val b => [(0, b)]
+    | .mp op => applyOp m op) []
+
+def sameState (a b : List (Nat × Bytes)) : Bool :=
+  (a.all fun p => lookupKey b p.1 == some p.2) && (b.all fun p => lookupKey a p.1 == some p.2)
+
+def cmdKey : Cmd → Option Nat
+  | .mp op => op.key?
+  | .val _ => none
+
+def isSubseq : List Cmd → List Cmd → Bool
+  | [], _ => true
+  | _ :: _, [] => false
+  | a :: as, b :: bs => if a == b then isSubseq as bs else isSubseq (a :: as) bs
+
+/-- Commands relevant to key `k` (value flavour: all of them). -/
+def projKey (k : Option Nat) (cs : List Cmd) : List Cmd :=
+  cs.filter fun c => match c with
+    | .val _ => true
+    | .mp .clear => true
+    | .mp op => op.key? == k
+
+def Mon.advance (m : Mon) (o : ObsIn) : Option (List MCons) :=
+  (List.range m.cons.length).mapM fun i =>
+    match m.cons[i]? with
+    | none => none
+    | some c => (accepts c.phase (notesAll o i)).map fun p => { c with phase := p }
+
+def isEvent : Note → Bool
+  | .event _ => true
+  | _ => false
+
+/-- Checks at a remote event `b` (`none`: a frame the interpretation rejects, strategy = ignore). -/
+def checkEvent (m : Mon) (o : ObsIn) (b : Option Body) : Option String :=
+  (List.range m.cons.length).firstM fun i =>
+    match m.cons[i]? with
+    | none => none
+    | some c =>
+      if !c.rAlive then none
+      else
+        let ns := notesFor o i
+        let closingNotes := ns.isEmpty && !(notesAll o i).isEmpty
+        match b with
+        | none =>
+          if ns.any isEvent then some "empty-event-for-ignored-bad-frame" else none
+        | some b =>
+          if closingNotes then none
+          else if c.phase == .synced || (c.phase == .linked && !c.sync) then
+            if ns == [.event b] then none
+            else if ns.isEmpty then
+              some (if !c.sync && c.late && !m.mapFl then "f8-late-nosync-value-missed-event" else "missed-event")
+            else some "wrong-event"
+          else if ns.isEmpty || ns == [.event b] then none
+          else some "unexpected-notification"
+
+def checkSynced (m : Mon) (o : ObsIn) : Option String :=
+  (List.range m.cons.length).firstM fun i =>
+    match m.cons[i]? with
+    | none => none
+    | some c =>
+      if !c.rAlive then none
+      else
+        let ns := notesFor o i
+        if ns.isEmpty && !(notesAll o i).isEmpty then none
+        else if ns.contains .synced then
+          if !c.sync then some (if c.late then "f8-late-nosync-unrequested-synced" else "synced-not-requested")
+          else match ns with
+            | [.synced] => none
+            | [.event b, .synced] => if some b == m.lastEv then none else some "synced-with-stale-state"
+            | _ => some "unexpected-notification"
+        else if c.phase == .linked && c.sync then some "synced-not-delivered"
+        else if ns.isEmpty then none else some "unexpected-notification"
+
+def checkLinked (m : Mon) (o : ObsIn) : Option String :=
+  (List.range m.cons.length).firstM fun i =>
+    match m.cons[i]? with
+    | none => none
+    | some c =>
+      if !c.rAlive then none
+      else
+        let ns := notesFor o i
+        if ns.isEmpty && !(notesAll o i).isEmpty then none
+        else if c.phase == .fresh then
+          if ns == [.linked] then none
+          else some (if m.earlyFrame then "linked-swallowed-after-early-frame" else "linked-not-delivered")
+        else if ns.isEmpty then none else some "unexpected-notification"
+
+/-- No consumer may receive anything in an op that is not a remote notification, an attach or a close. -/
+def checkQuiet (m : Mon) (o : ObsIn) : Option String :=
+  (List.range m.cons.length).firstM fun i =>
+    let ns := notesFor o i
+    if ns.isEmpty || ns == [.eof] then none else some "unexpected-notification"
+
+def checkClosed (cs : List MCons) (reason : String) : Option String :=
+  if cs.any fun c => c.rAlive && (c.phase == .fresh || c.phase == .linked || c.phase == .synced) then some reason
+  else none
+
+def frameCmd (issued : List Cmd) (t : String) : Option Cmd :=
+  if t.startsWith "cmd:" then
+    match bytesOfHex (t.drop 4).toString with
+    | some b => issued.find? fun c => c.body == b
+    | none => none
+  else none
+
+/-- Socket side: frames read in this op. -/
+def checkFrames (m : Mon) (o : ObsIn) : Mon × Option String :=
+  o.frames.foldl (fun (acc : Mon × Option String) t =>
+    match acc.2 with
+    | some _ => acc
+    | none =>
+      let m := acc.1
+      if t == "link" then
+        ({ m with frames := m.frames + 1 }, if m.frames == 0 then none else some "second-link-frame")
+      else if m.frames == 0 then (m, some "first-frame-not-link")
+      else if t == "sync" then
+        ({ m with frames := m.frames + 1, syncGot := m.syncGot + 1 },
+         if m.syncGot < m.syncAsked then none else some "sync-not-requested")
+      else match frameCmd m.issued t with
+        | none => (m, some "command-not-issued")
+        | some c =>
+          let got := m.got ++ [c]
+          ({ m with frames := m.frames + 1, got := got },
+           if isSubseq (projKey (cmdKey c) got) (projKey (cmdKey c) m.issued) then none
+           else some "commands-reordered-or-duplicated")) (m, none)
+
+def opWords (op : String) : List String := words op
+
+/-- One observed step. -/
+def Mon.step (m : Mon) (op out : String) : Mon × Option String :=
+  match opWords op with
+  | ["new", fl, _, _, _, strat, _] =>
+    ({ started := true, mapFl := fl == "map", abort := strat != "ignore" || fl != "map" },
+     if out == "ok" then none else some "unexpected-result")
+  | ws =>
+    if !m.started then (m, some "op-before-new")
+    else if out == "stopped" then (m, if m.closing then none else some "stopped-without-close")
+    else if out == "na" || out == "bad-op" then (m, none)
+    else match parseObs m.mapFl out with
+    | none => (m, some "unparsable-output")
+    | some o =>
+      -- session grammar of every consumer
+      let m0 : Mon := match ws with
+        | ["attach", s, _] =>
+          { m with cons := m.cons ++ [{ sync := s == "1", late := m.leftInit }],
+                   syncAsked := m.syncAsked + (if s == "1" then 1 else 0) }
+        | _ => m
+      match m0.advance o with
+      | none => (m0, some "session-grammar")
+      | some cons' =>
+        let m1 := { m0 with cons := cons', closing := m0.closing || o.done }
+        if (o.notes.any fun p => p.1 ≥ m0.cons.length) then (m1, some "notification-for-unknown-consumer")
+        else
+        let (m2, fv) := checkFrames m1 o
+        match fv with
+        | some r => (m2, some r)
+        | none =>
+        let doneCheck : Option String := if o.done then checkClosed cons' "consumer-not-unlinked-at-exit" else none
+        match ws with
+        | ["attach", _, _] =>
+          let i := m.cons.length
+          let others := (List.range i).firstM fun j => if (notesFor o j).isEmpty then none else some "unexpected-notification"
+          let ns := notesFor o i
+          (m2, others <|> (if ns.isEmpty || ns == [.linked] || ns == [.eof] then none
+                          else some "unexpected-notification") <|> doneCheck)
+        | ["remote", "linked"] =>
+          ({ m2 with linkedSent := true, leftInit := true }, checkLinked m0 o <|> doneCheck)
+        | ["remote", "synced"] =>
+          ({ m2 with earlyFrame := m2.earlyFrame || !m2.linkedSent, leftInit := true }, checkSynced m0 o <|> doneCheck)
+        | ["remote", "unlinked"] =>
+          ({ m2 with closing := true }, checkClosed cons' "consumer-not-unlinked-at-close" <|> doneCheck)
+        | ["remote", "eof"] =>
+          ({ m2 with closing := true }, checkClosed cons' "consumer-not-unlinked-at-close" <|> doneCheck)
+        | ["stop"] => ({ m2 with closing := true }, checkClosed cons' "consumer-not-unlinked-at-close" <|> doneCheck)
+        | ["sockclose"] => ({ m2 with closing := true }, checkQuiet m0 o <|> doneCheck)
+        | "remote" :: "mev" :: "bad" :: _ =>
+          if m.abort then
+            ({ m2 with closing := true }, checkClosed cons' "consumer-not-unlinked-at-close" <|> doneCheck)
+          else ({ m2 with earlyFrame := m2.earlyFrame || !m2.linkedSent }, checkEvent m0 o none <|> doneCheck)
+        | "remote" :: rest =>
+          let b : Option Body := match rest with
+            | ["ev", h] => parseBody false h
+            | "mev" :: r => parseBody true (".".intercalate r)
+            | _ => none
+          (match b with
+           | none => (m2, some "unparsable")
+           | some b =>
+             ({ m2 with lastEv := some b, earlyFrame := m2.earlyFrame || !m2.linkedSent },
+              checkEvent m0 o (some b) <|> doneCheck))
+        | "cmd" :: _ :: rest | "mcmd" :: _ :: rest =>
+          let c : Option Cmd := match ws.head?, rest with
+            | some "cmd", [h] => (bytesOfHex h).map .val
+            | some "mcmd", ["upd", k, h] => do some (.mp (.upd (← k.toNat?) (← bytesOfHex h)))
+            | some "mcmd", ["rem", k] => k.toNat?.map fun k => .mp (.rem k)
+            | some "mcmd", ["clr"] => some (.mp .clear)
+            | _, _ => none
+          (match c with
+           | none => (m2, some "unparsable")
+           | some c =>
+             ((if o.cmdClosed then m2 else { m2 with issued := m2.issued ++ [c] }), checkQuiet m0 o <|> doneCheck))
+        | ["drain", k] =>
+          let k := k.toNat?.getD 0
+          let quiet := checkQuiet m0 o
+          let bound : Option String := match o.read with
+            | some n => if n ≤ k then none else some "read-more-than-requested"
+            | none => if o.closed then none else some "unparsable-output"
+          -- quiescent point: nothing left in flight while the link is up ⇒ the lane has seen the effect of everything
+          let fold : Option String :=
+            if o.read == some 0 && k > 0 && !m2.closing && !o.sockEof && m2.frames > 0 then
+              (if sameState (foldCmds m2.got) (foldCmds m2.issued) then none
+               else some "lane-state-differs-from-fold-of-issued")
+            else none
+          (m2, quiet <|> bound <|> fold <|> doneCheck)
+        | ["drop", c] | ["dropr", c] =>
+          let c := c.toNat?.getD 0
+          let cons2 := (List.range m2.cons.length).filterMap fun i =>
+                (m2.cons[i]?).map fun x => if i == c then { x with rAlive := false } else x
+          ({ m2 with cons := cons2 },
+           checkQuiet m0 o <|> (if o.done then checkClosed cons2 "consumer-not-unlinked-at-exit" else none))
+        | ["dropw", _] => (m2, checkQuiet m0 o <|> doneCheck)
+        | _ => (m2, some "unparsable")
+
+end SwimVerif.DL
